@@ -186,7 +186,7 @@ class FX(object):
     pass
 
 
-FIXTURE_NAMES = ['lit', 'I_shl', 'I_add', 'I_push', 'I_pop', 'I_moves', 'I_sete', 'I_div', 'I_sse', 'I_rep67', 'K', 'w', 'T', 'U', 'Q', 'C', 'pc', 'regs', 'sys.path']
+FIXTURE_NAMES = ['lit', 'I_shl', 'I_add', 'I_push', 'I_pop', 'I_moves', 'I_sete', 'I_div', 'I_sse', 'I_rep67', 'I_popad', 'K', 'w', 'T', 'U', 'Q', 'C', 'pc', 'regs', 'sys.path']
 
 
 def build_fixtures():
@@ -207,6 +207,7 @@ def build_fixtures():
     f.I_div = dis(bytes.fromhex('f7f3'))     # div ebx
     f.I_sse = dis(bytes.fromhex('f30f10c1'))  # movss xmm0, xmm1: the mnemonic depends on the mandatory prefix kept in .prefix
     f.I_rep67 = dis(bytes.fromhex('67f3aa'))   # rep stosb with the address-size prefix
+    f.I_popad = dis(bytes.fromhex('61'))
     f.K = E.ExprInt32(0x10001)                 # a constant object the caller shares with the state of m2 (ecx)
     f.w = E.ExprId('w')
     f.T = E.ExprOp('+', E.ExprOp('+', S.eax, f.w), E.ExprInt32(0))    # shared tree over a module-level register and w
@@ -282,6 +283,13 @@ def tables_obj():
     return {'db': vars(A.x86mndb), 'ia32_arch': mod, 'x86_afs': afs}
 
 
+def lifter_tables():
+    """the register tables the lifter indexes (lists of expressions): small, fingerprinted structurally every time (their
+    pickle bytes vary with the memo attributes of the expressions)"""
+    S = _ctx['S']
+    return {k: v for k, v in vars(S.ia32_rexpr).items() if type(v) in (dict, list, tuple)}
+
+
 class Tables(object):
     """canonical fingerprint of the shared tables; the 3 MB serialisation is recomputed only when a cheap
     exact digest (pickle bytes) says the structure may have changed"""
@@ -316,7 +324,7 @@ def marks(nodes):
 def snapshot(f, tables, with_tables):
     snap = {'p': [fp(f.m[1].pool), fp(f.m[2].pool)],
             'x': [fp(getattr(f, n)) for n in FIXTURE_NAMES[:-1]] + [fp(process_env())],
-            't': tables.fp() if with_tables else '',
+            't': (tables.fp() + fp(lifter_tables())[:6]) if with_tables else '',
             'e': hashlib.md5(marks(f.watched).encode()).hexdigest()[:8],
             's': hashlib.md5(''.join('1' if getattr(n, 'simp', False) else '0' for n in f.watched).encode()).hexdigest()[:8],
             'd': fp(defaults_state())[:8]}
@@ -369,6 +377,7 @@ def _calls():
         'att_shl': ('pure', 0, lambda f: f.I_shl.__str__('att_syntax')),
         'lift_shl': ('pure', 0, lambda f: lift(f, f.I_shl)),
         'str_sse': ('pure', 0, lambda f: str(f.I_sse)),
+        'lift_popad': ('pure', 0, lambda f: lift(f, f.I_popad)),
         'emul_rep67_m2': ('write', 2, lambda f: emul(f, 2, [f.I_rep67])),
         'simp_T': ('pure', 0, lambda f: H.expr_simp(f.T)),
         'simp_S': ('pure', 0, lambda f: H.expr_simp(H.expr_simp(f.T))),
